@@ -56,6 +56,8 @@ def plan(tier):
         for i in range(4):
             specs.append({"part": "hyp", "n": 1500, "i": i})
         specs.append({"part": "hdr", "n": 600})
+        for i in range(3):
+            specs.append({"part": "hdrworld", "n": 250, "i": i})
     else:
         n = 16
         for i in range(n):
@@ -68,6 +70,8 @@ def plan(tier):
             specs.append({"part": "hyp", "n": 20000, "i": i})
         for i in range(8):
             specs.append({"part": "hdr", "n": 5000, "i": i})
+        for i in range(8):
+            specs.append({"part": "hdrworld", "n": 1500, "i": i})
     return specs
 
 
@@ -388,6 +392,122 @@ def hdr_body(ctx, start, offsets):
         ctx.sample({"part": "hdr", "start": start, "offsets": offsets})
 
 
+# ------------------------------------------------------------------------- part 3b (world)
+def hdrworld_body(ctx, c):
+    """real client / real server loop under a faulty link (loss, duplication, reordering, replays): the ack fields of
+    EVERY datagram either side emits must name exactly the peer datagrams that side accepted among the newest 32"""
+    from vp import world as W, scen
+    link = scen.Link(c["link"])
+    flags = set()
+    with W.World(seed=c["seed"], flavour=c["flavour"]) as w:
+        ch = w.connect_client()
+        sconn = w.server_conn(ch.laddr)
+        for conn, peer in ((ch.conn, sconn), (sconn, ch.conn)):
+            if c["pos"]:
+                W.position_seq(conn, peer, c["pos"])
+        n0 = len(w.net.log)
+        watches = {False: W.ConnWatch(sconn, w.clock, w.net), True: W.ConnWatch(ch.conn, w.clock, w.net)}   # key: emission.to_server
+        # initial condition (read once): what each window held when the observation started
+        initial = {}
+        for key, watch in watches.items():
+            bf = watch.conn.bitfield_pkt
+            cur = int(bf.current_seqnum)
+            init = []
+            if cur:
+                p0 = M * 4 + cur
+                init = [p0 - i for i in range(32, 0, -1) if bf.bits & (0x80000000 >> (i - 1))] + [p0]
+            initial[key] = init
+        link.t_base = w.clock.t
+        w.net.policy = link
+        uid = 0
+        for ti, tick in enumerate(c["ticks"]):
+            for side, n, retry in tick:
+                uid += 1
+                scen.do_send(w, ch, side, n, retry, uid, callback=False)
+            w.step(c["dt"])
+            if ti % 7 == 3 and w.net.log:
+                # a stale / duplicate copy of something already delivered
+                em = w.net.log[max(n0, len(w.net.log) - 1 - (ti * 5) % 60)]
+                if em.fates:
+                    w.net.push(w.clock.t + 0.001, em.dst, em.src, em.data)
+        link.healed()
+        w.run(0.5, c["dt"])
+        # model per endpoint: accepted datagram seqs in acceptance order, positions unwrapped on the integer line
+        for to_server, watch in watches.items():
+            # watch of the endpoint that EMITS datagrams with em.to_server == to_server
+            # (client emits to_server=True and its watch is watches[True])
+            acc = [(n, seq) for (t, seq, is_copy, ok, lag, n) in watch.datagrams if ok]
+            if not acc:
+                continue
+            k = 0
+            accepted = list(initial[to_server])      # unwrapped positions
+            last_pos = accepted[-1] if accepted else None
+            newest = max(accepted) if accepted else None
+            for em in w.net.log[n0:]:
+                if em.to_server != to_server:
+                    continue
+                while k < len(acc) and acc[k][0] <= em.i:
+                    seq = acc[k][1]
+                    if last_pos is None:
+                        pos = M * 4 + seq
+                    else:
+                        # nearest representative of seq to the previous newest
+                        base = newest - ring(newest)
+                        cands = [base + seq + d * M for d in (-1, 0, 1)]
+                        pos = min(cands, key=lambda x: abs(x - newest))
+                    accepted.append(pos)
+                    newest = pos if newest is None or pos > newest else newest
+                    last_pos = pos
+                    k += 1
+                if newest is None:
+                    continue
+                h = W.parse_header(em.data)
+                named = set()
+                if h.ack:
+                    named.add(h.ack)
+                    for i in range(1, 33):
+                        if h.ack_bits & (0x80000000 >> (i - 1)):
+                            named.add(ring(h.ack - i + M))
+                expect = {ring(p) for p in accepted if newest - 32 <= p <= newest}
+                if h.ack != ring(newest) or named != expect:
+                    ctx.violation("ack-fields-world", "%s datagram #%d: ack=%d bits=%08x names %s; the endpoint had accepted (newest 32) %s, newest %d" % (
+                        "client" if to_server else "server", em.i, h.ack, h.ack_bits, sorted(named)[-8:], sorted(expect)[-8:], ring(newest)))
+            lags = [lag for (t, seq, is_copy, ok, lag, n) in watch.datagrams]
+            if any(l > 0 for l in lags):
+                flags.add("reordered")
+            if any(is_copy for (t, seq, is_copy, ok, lag, n) in watch.datagrams):
+                flags.add("copies")
+            if any(not ok for (t, seq, is_copy, ok, lag, n) in watch.datagrams):
+                flags.add("rejected")
+        if link.dropped:
+            flags.add("gaps")
+    return flags
+
+
+def run_hdrworld(spec, ctx):
+    from vp import scen
+    tick = st.lists(st.tuples(st.sampled_from(["c", "s"]), st.sampled_from([0, 8, 200, 1500]), st.sampled_from([0, 1, -1])).map(list), max_size=2)
+    cases = st.fixed_dictionaries({
+        "seed": st.integers(0, 2 ** 20), "flavour": st.sampled_from(["udp", "twisted"]),
+        "pos": st.sampled_from([0, 0, 65480, 65520]),
+        "link": scen.link_specs(max_loss=0.3, max_outage=0.6, horizon=2.0),
+        "ticks": st.lists(tick, min_size=20, max_size=90), "dt": st.sampled_from([0.017, 0.034]),
+    })
+
+    @ctx.given(spec["n"], cases, salt=spec.get("i", 0))
+    def test(c):
+        if ctx.out_of_time():
+            return
+        ctx.case({"part": "hdrworld", "c": c})
+        flags = hdrworld_body(ctx, c)
+        for f in flags:
+            ctx.label("hdrworld-" + f)
+        if {"gaps", "reordered", "copies"} <= flags:
+            ctx.nt(("hdrworld", c["seed"], c["pos"], len(c["ticks"])))
+        ctx.sample({"part": "hdrworld", "pos": c["pos"], "link": c["link"], "n_ticks": len(c["ticks"])})
+    test()
+
+
 def run_shard(spec, ctx):
     part = spec["part"]
     if part == "seqnum":
@@ -400,6 +520,8 @@ def run_shard(spec, ctx):
         run_hyp(spec, ctx)
     elif part == "hdr":
         run_hdr(spec, ctx)
+    elif part == "hdrworld":
+        run_hdrworld(spec, ctx)
 
 
 def replay_case(case, ctx):
@@ -413,3 +535,5 @@ def replay_case(case, ctx):
         run_chain({}, ctx)
     elif part == "hdr":
         hdr_body(ctx, case["start"], case["offsets"])
+    elif part == "hdrworld":
+        hdrworld_body(ctx, case["c"])
